@@ -331,7 +331,7 @@ func c22Scenarios(thorough bool) []*explore.Scenario {
 func init() {
 	register(&Prop{ID: "C22", Level: "exploration", Variant: "A", Scenarios: c22Scenarios,
 		Run: func(c *explore.Check, thorough bool) {
-			c.Rule = "every parrot carrying an ALPS extension + custom specs with the old, the new and both codepoints x version {1.3, 1.2} x ALPN selected {h2, http/1.1, none} x offered server codepoint {17513, 17613} x server settings {empty, 1 B, 300 B} x ALPS listed {after, before} ALPN in the server's message x {nothing after it, an (RFC 6066) empty server_name acknowledgement as the last extension} x Config.ApplicationSettings {has the protocol, lacks it, nil} x server {no client auth, RequestClientCert}: the server (verif hooks) adds ALPS to EncryptedExtensions / ServerHello and reads the client's EncryptedExtensions into its transcript; TLS 1.3 + ALPN => handshake completes (server Finished check passed), PeerApplicationSettings == server bytes, one client EncryptedExtensions with the negotiated codepoint and the configured settings; no ALPN => client error; TLS 1.2 => settings never exposed. distinct = case"
+			c.Rule = "every parrot carrying an ALPS extension + custom specs with the old, the new and both codepoints x version {1.3, 1.2} x ALPN selected {h2, http/1.1, none} x offered server codepoint {17513, 17613} x server settings {empty, 1 B, 300 B} x ALPS listed {after, before} ALPN in the server's message x {nothing after it, an (RFC 6066) empty server_name acknowledgement as the last extension} x Config.ApplicationSettings {has the protocol, lacks it, nil} x server {no client auth, RequestClientCert}: the server (verif hooks) adds ALPS to EncryptedExtensions / ServerHello and reads the client's EncryptedExtensions into its transcript; TLS 1.3 + ALPN => handshake completes (server Finished check passed), PeerApplicationSettings == server bytes, one client EncryptedExtensions with the negotiated codepoint and the configured settings; no ALPN => client error; TLS 1.2 => settings never exposed; every ALPS- and PSK-capable parrot x codepoint x first connection {without, with} ALPS x client settings {configured, nil} x server settings {1 B, 300 B}: on the PSK-resumed second connection whose server negotiates ALPS again, the message the server reads right after its flight is a client EncryptedExtensions with the negotiated codepoint and the configured settings. distinct = case"
 			c.Assumptions = []string{"'rejects under TLS < 1.3' is read as 'does not accept': an error or silently ignoring both satisfy the oracle", "a server codepoint the hello did not offer is outside this property"}
 			runAll(c, c22Scenarios(thorough), 0)
 			c.Gate(c.Total.Counters["alps_negotiated"] > 100, "non-vacuity: %d negotiated ALPS handshakes", c.Total.Counters["alps_negotiated"])
